@@ -4,7 +4,7 @@ Line-protocol driver for the C08 replication model.
   reset
   append <hex> | append -        leader WriteLog (`-` = empty message)
   step <a|b> <fault>             one partition.replica call for that follower; fault ∈ none cli getack reset connect send recv put
-  frestart <w> | flose <w> | offline <w> | online <w> <fault> | steponl <w> <fault> | join <w>
+  frestart <w> | flose <w> | fclose <w> | offline <w> | online <w> <fault> | steponl <w> <fault> | join <w>
   lsnap | lrestore <k> | lrestart | gc | expire
 
 Every line answers
@@ -86,6 +86,7 @@ def parseEv : List String → Option Ev
   | ["step", w, f] => do let w ← parseWho w; let f ← parseFault f; some (.step w f)
   | ["frestart", w] => (parseWho w).map Ev.frestart
   | ["flose", w] => (parseWho w).map Ev.flose
+  | ["fclose", w] => (parseWho w).map Ev.fclose
   | ["lsnap"] => some .lsnap
   | ["lrestore", k] => k.toNat?.map Ev.lrestore
   | ["lrestart"] => some .lrestart
